@@ -41,6 +41,8 @@ VARIANTS = {
                                   "-fno-sanitize-recover=all"]),
     "tsan": dict(cc="gcc", flags=["-O1", "-g", "-fsanitize=thread"]),
     "plain": dict(cc="gcc", flags=["-O1", "-g"]),
+    # line/branch coverage of the workload itself (bin/covreport): evidence of what the monitors reached, never an oracle
+    "cov": dict(cc="gcc", flags=["-O0", "-g", "--coverage", "-fprofile-update=atomic", "-DHV_COV"]),
     "msanbm": dict(cc="clang-14", flags=["-O1", "-g", "-fsanitize=memory",
                                          "-fsanitize-memory-track-origins",
                                          "-fno-omit-frame-pointer"],
